@@ -11,7 +11,8 @@ HYPOTHESES = []
 NOT_YET_PROVED = []
 ASSUMPTIONS = []
 nontrivial = nontrivial_default
-EXTRA_MODULES = {"Props.TieCodec": "PyEcc.Tie.", "Props.TieHashCodec": "PyEcc.Tie."}
+EXTRA_MODULES = {"Props.TieCodec": "PyEcc.Tie.", "Props.TieHashCodec": "PyEcc.Tie.", "Props.TieFieldsFq": "PyEcc.Tie.", "Props.TieFieldsFqp": "PyEcc.Tie.", "Props.TieFieldsMul": "PyEcc.Tie.", "Props.TieFieldsPoly": "PyEcc.Tie.", "Props.TieFieldsInv": "PyEcc.Tie."}
+
 P = O.BLS_P
 
 
